@@ -488,4 +488,122 @@ class C08(Spec):
         return qs
 
 
-PROPS.update({'C08': C08(), 'C05': C05(), 'C20': C20(), 'C18': C18(), 'C07': C07(), 'C16': C16(), 'C15': C15(), 'C12': C12(), 'C10': C10(), 'C11': C11(), 'C13': C13(), 'C19': C19(), 'C09': C09(), 'C04': C04(), 'C02': C02(), 'C03': C03(), 'C06': C06(), 'C14': C14()})
+class C17(Spec):
+    level = 'fault_enumeration'
+    functions = CORE_FUNCS + BUILDER_FUNCS + RING_FUNCS
+
+    def queries(self, tier, bld):
+        qs = []
+        kv = range(0, 18) if tier == 'quick' else range(0, 26)
+        for k in kv:
+            q = core_q('C17.verify.k%02d' % k, ['PROP_C17', 'PROP_C01', 'PROP_C02', 'PROP_C03', 'FAULT_K=%d' % k, 'VJ_CHECK_DEAD', 'VF_NO_REACH'], L=12, budget=600)
+            q.checks = 'pointer'
+            q.defines = [d for d in q.defines if d != 'VF_FREE_NOOP']
+            q.bounds['failing allocation index'] = k
+            qs.append(q)
+        for k in (range(0, 16) if tier == 'quick' else range(0, 24)):
+            # verdict mode: the builder path with pointer checks does not finish (>600 s per index);
+            # crashes under fault are searched on the verify and load paths, content/flag here
+            q = builder_q('C17.generate.k%02d' % k, ['PROP_C17', 'PROP_C10', 'FAULT_K=%d' % k, 'VF_NO_REACH', 'C17_SIMPLE'])
+            q.bounds['failing allocation index'] = k
+            qs.append(q)
+        for sh, sn in ((2, 'single'), (5, 'keys1')):
+            for k in (range(0, 8) if tier == 'quick' else range(0, 12)):
+                q = ring_q('C17.load.%s.k%02d' % (sn, k), ['SIDE_LOAD', 'SHAPE=%d' % sh, 'ROUTE=1', 'PRE=%d' % (1 if sn == 'keys1' else 0), 'FAULT_K=%d' % k, 'VF_NO_REACH'],
+                           bounds={'failing allocation index': k, 'document': sn})
+                q.unwindset = {f + '.0': 5 for f in LIST_LOOPS}
+                qs.append(q)
+        return qs
+
+
+PROPS.update({'C17': C17(), 'C08': C08(), 'C05': C05(), 'C20': C20(), 'C18': C18(), 'C07': C07(), 'C16': C16(), 'C15': C15(), 'C12': C12(), 'C10': C10(), 'C11': C11(), 'C13': C13(), 'C19': C19(), 'C09': C09(), 'C04': C04(), 'C02': C02(), 'C03': C03(), 'C06': C06(), 'C14': C14()})
+
+
+# ---------------------------------------------------------------------------------------------
+# MANIFEST texts
+_T = {
+ 'C02': ('Bounded model checking: the whole (configured alg x key alg x key kind x header alg x route x signature) matrix is '
+         'symbolic in ONE query per layer; setkey admits exactly the documented table, acceptance implies header alg == pinned '
+         'alg, no crypto without key+alg, HMAC only with oct keys, provider primitives only after the key-family test; same on '
+         'the builder. Bounded (token <= L bytes).',
+         'oracle provider at the core layer; EVP_PKEY type at the OpenSSL layer is a symbolic tag; GnuTLS family test is inside '
+         'gnutls_pubkey_verify_data2 (modelled as documented)'),
+ 'C03': ('Bounded model checking of verify and generate with symbolic configuration (setkey and/or callback) and all tokens <= L: '
+         'with a key no empty signature / alg none is accepted or emitted; without a key only alg exactly "none" with an empty third segment.',
+         'oracle provider; JSON parser havocked; token length <= L'),
+ 'C04': ('Bounded model checking: K symbolic configuration calls (claim_set/claim_del/time_leeway) mirrored on a reference policy, '
+         'then verify under a symbolic clock with exp/nbf/iss/sub/aud absent or of any JSON type; accepted => every check passes '
+         '(128-bit reference arithmetic), claims fail => no crypto; unsigned tokens accepted EXACTLY when the checks pass.',
+         'clock in [0,2^62], leeways in [-2^40,2^40], expected strings <= 3 ASCII bytes, K <= 2 (quick) / 3 (thorough) calls'),
+ 'C05': ('Bounded model checking of the provider sign/verify units: ECDSA DER <-> fixed-width r||s conversion for EVERY minimal-length '
+         'r and s (both providers), output exactly 2*field bytes; PSS parameters on both sides; deterministic algorithms hand back the '
+         "primitive's bytes; signing input and key are exactly those handed in. Round trip of real signatures is the crypto libraries'.",
+         'OpenSSL/GnuTLS primitives are oracles (M4/M5); the content-equality half (checker sees what the builder was given) is split '
+         'between C10 (what is dumped) and C01 (what is parsed is what was authenticated); JSON text fidelity is jansson\'s'),
+ 'C06': ('Bounded model checking: every token <= L bytes: fewer than two dots, undecodable segment 1, header not an object / no known '
+         'string alg, segment 2 not JSON => non-zero; memory safety (CBMC bounds/pointer checks, exact end-aligned allocator) of the '
+         'codec and of the provider verify units for all signature lengths; loops bounded by unwinding assertions.',
+         'token <= L (12..16) bytes, not tens of kilobytes; leak freedom by per-unit balance obligations, not end to end'),
+ 'C07': ('Bounded model checking of the load path with a havocked parser: for each document SHAPE (not JSON, non-object, single JWK, keys of '
+         'any type, keys array of 0..2 elements of any type) and every member absent or of any JSON type: item count/order, error<=>message, '
+         'usable-or-errored, memory safety, ownership balance; the provider parsers are discharged separately for RSA/EC/OKP against the '
+         'same contract, every OpenSSL stub asserting its documented preconditions.',
+         'JSON grammar is jansson\'s (parser havocked); strings <= 6..8 bytes; <= 2 keys per set; OpenSSL is stubbed (M4)'),
+ 'C08': ('Bounded model checking of the JWK importers on arbitrary members: the (parameter name, bytes) pairs handed to OpenSSL are exactly '
+         'the RFC 7518 members of the key type with bytes = reference base64url decoding; curve mapping, private/public, alg/use/key_ops/kid, '
+         'oct bytes and bits as the JWK states; foreign members never reach the provider.',
+         'that EVP_PKEY_fromdata + PEM writing denote the same key, and the reported bit size, are OpenSSL\'s (oracles); member strings <= 5..12 bytes'),
+ 'C09': ('Model checking of jwt_sign / jwt_verify_sig with a symbolic (alg, key kind, bits) triple: the crypto oracle is reached IFF the '
+         'floor predicate of the property holds (both directions), failure sets the error. Exhaustive over all algorithms and all sizes < 2^31.',
+         'recorded sizes >= 2^31 bits excluded (size_t -> int narrowing in the gate); bits == 8*len for oct items is proved by the import harness'),
+ 'C10': ('Bounded model checking of generate with a symbolic configuration history, clock and callback: the token equals '
+         'b64url(dump(H)).b64url(dump(P)).b64url(sig) by an independent encoder; H/P contents at dump time (alg forced, typ default, iat/nbf/exp '
+         'injection and overriding, callback edits only in this token); builder unchanged; signing input exactly header.payload; public keys refused.',
+         'json_dumps is an oracle returning arbitrary text <= 3 bytes (the relation tree -> text is jansson\'s); signature <= 3 bytes'),
+ 'C11': ('Bounded model checking of the codec against a bitwise RFC 4648 reference under an exact allocator: all byte strings of length 1..N '
+         'encode to the reference text and round-trip; all NUL-free texts of length 0..M are rejected or decode exactly as the reference says; '
+         'every out-of-buffer access is a CBMC bounds violation (incl. the terminator slot).',
+         'N=12/M=16 quick, N=48/M=64 thorough; lengths beyond are outside the claim'),
+ 'C12': ('Model checking: provider selection by every name <= 9 bytes / every int id / every JWT_CRYPTO value is decided completely; both '
+         'provider units are checked against the same contract (accepted <=> return 0 and flag clear; a signature the primitive rejects is '
+         'rejected; deterministic algorithms copy the primitive output; same ECDSA length rule).',
+         'agreement of the two libraries\' primitives themselves is outside (oracles)'),
+ 'C13': ('Bounded model checking, two obligations: frame (verify/generate leave every configuration field and the stored trees unchanged, '
+         'from an arbitrary error pre-state) and independence (two verify runs on the same token/config/clock/parse results/oracle tape, one '
+         'from an arbitrary error state and one from a cleared one, return the same). Together: reused == fresh for histories of any length.',
+         'independence query at L=8 with 1-byte MAC (the two-run miter is the costliest query); builder side: frame + functional determinism (C10)'),
+ 'C14': ('Bounded model checking from an arbitrary error pre-state: verify != 0 <=> flag set; failure => non-empty message; success => flag '
+         'clear and message empty; generate NULL <=> flag with message; refused setkey reported; item error => message (C07).',
+         'message content is not examined; snprintf modelled as writing the first literal character of its format'),
+ 'C15': ('Model checking by one-step induction: from an ARBITRARY pre-state object one arbitrary set/get/del (all types, names NULL/empty/'
+         'colliding/new, replace, JSON parse result havocked) on builder and jwt_t wrappers, headers and claims, compared with a reference map; '
+         'failed operations change nothing; return == value->error.',
+         'the container itself is the jansson model; values <= 2 ASCII bytes; invalid UTF-8 excluded'),
+ 'C16': ('Model checking by one-step induction over every keyring of 0..3 (4) items built by the real list code: each operation vs a reference '
+         'sequence, the full doubly-linked-list invariant re-established, exact release accounting, CBMC memory-safety checks on.',
+         'list STRUCTURE is concrete per query (a symbolic structure makes the release path explode), contents symbolic'),
+ 'C17': ('Fault enumeration by the solver: for each scenario every index k of the allocations it performs fails (one query per k, inputs '
+         'symbolic): no memory-safety failure, failure reported through the documented channel or result identical in kind to the fault-free run.',
+         'OpenSSL/GnuTLS internal allocations are not routed through jwt_set_alloc; leaks under fault are not asserted'),
+ 'C18': ('Sequential footprint condition decided by the solver (Bernstein): on all inputs within the C01/C10 bounds verify and generate '
+         'leave every static-lifetime non-const object of the libjwt units (enumerated from the goto symbol table on every run), the shared key '
+         'item and its material, and an unrelated checker/builder unchanged; functions owning function-local statics must be unreachable. '
+         'No interleaving is explored.',
+         'thread safety of OpenSSL/GnuTLS/jansson assumed; a write of the value already present is invisible; a correctly synchronised static would be a false alarm'),
+ 'C19': ('Bounded model checking: at the fork point (inside the callback) the real continuation is run on a deep clone of the unedited token '
+         'object with the same oracle tape; the verdict after a callback program of up to 1 (2) edits equals it. Callback error => failure; '
+         'callback-selected key/alg obey the setkey table.',
+         'edit menu: delete/replace-by-int/replace-by-string/add-bool on exp,nbf,iss; delete-all claims/headers; overwrite alg header'),
+ 'C20': ('Model checking of the real jwt-verify main() over API stubs: for n tokens (argv and stdin routes) and ALL 2^n verdict vectors exit '
+         'status == 0 <=> all verified (n up to 257 / 513); every option documented in usage() (parsed from the source each run) in every spelling '
+         'is accepted and its argument reaches the library.',
+         'getopt_long is a model (no permutation, no abbreviations); jwt-generate/key2jwk/jwk2key are covered only through the library properties'),
+}
+for _k, (_a, _b) in _T.items():
+    if _k in PROPS:
+        PROPS[_k].level_text = _a
+        PROPS[_k].level_note = _b
+        PROPS[_k].design_ref = 'DESIGN.md section 5 ' + _k
+PROPS['C18'].technique = 'bounded model checking (CBMC) of a sequential frame/footprint condition that implies race freedom; no schedule explored'
+if 'C17' in PROPS:
+    PROPS['C17'].technique = 'solver-based fault enumeration: one CBMC query per failing-allocation index, inputs symbolic'
